@@ -27,6 +27,8 @@ REQUIRED_THEOREMS = [
     # audit round: the RBM density matrix is a state (C02) -> Renyi-2 >= 0 for mixed states
     "C09_mixed_is_state", "C09_purity_mixed_rbm", "C09_purity_pos_mixed_rbm", "C09_renyi_nonneg_mixed_rbm", "C09_empty_region",
     "C09_renyi_nonneg_pure_rbm", "C09_renyi_nonneg_pure_rbm_pos",   # second audit C09-A1: hypothesis-free instances for the RBM wavefunctions
+    # extension round X3: the batch mean on B >= 2 i.i.d. rows is unbiased; a one-row batch is paired with itself (value 1, biased)
+    "C09_batch_list_form", "C09_batch_mean_unbiased", "C09_single_row", "C09_single_row_mean", "C09_single_row_biased",
 ]
 THEOREMS = {
     "apply": "C09_purity (+ C09_no_mutation: run = per-pair value on (samples[i], samples[(i-1) mod B]); C09_region)",
